@@ -61,6 +61,18 @@ impl std::future::Future for GateFut {
     }
 }
 impl Drop for GateFut { fn drop(&mut self) { if !self.done { if OCC[self.obj].load(SeqCst) > 0 { OCC[self.obj].fetch_sub(1, SeqCst); } CANCELLED[self.op].store(true, SeqCst); END[self.op].store(now(), SeqCst); } } }
+static NDROP: [AtomicUsize; N] = [const { AtomicUsize::new(0) }; N];
+static ALIVE: [AtomicBool; N] = [const { AtomicBool::new(true) }; N];
+static UAF: AtomicUsize = AtomicUsize::new(0);
+static DROPBEGIN: [AtomicUsize; N] = [const { AtomicUsize::new(usize::MAX) }; N];
+static DROPEND: [AtomicUsize; N] = [const { AtomicUsize::new(usize::MAX) }; N];
+static FREEDAT: [AtomicUsize; N] = [const { AtomicUsize::new(usize::MAX) }; N];
+static SLOTFULL: [AtomicBool; N] = [const { AtomicBool::new(false) }; N];
+struct Canary { id: usize }
+impl Drop for Canary { fn drop(&mut self) { NDROP[self.id].fetch_add(1, SeqCst); ALIVE[self.id].store(false, SeqCst); FREEDAT[self.id].store(now(), SeqCst); } }
+fn touch(c: &mut Canary, cid: usize) { if !ALIVE[cid].load(SeqCst) { UAF.fetch_add(1, SeqCst); } let _ = c; }
+struct DGateFut { inner: GateFut, cid: usize }
+impl std::future::Future for DGateFut { type Output = usize; fn poll(mut self: std::pin::Pin<&mut Self>, cx: &mut std::task::Context<'_>) -> std::task::Poll<usize> { let cid = self.cid; let r = std::pin::Pin::new(&mut self.inner).poll(cx); if r.is_ready() && !ALIVE[cid].load(SeqCst) { UAF.fetch_add(1, SeqCst); } r } }
 struct TaskWake(usize);
 impl futures::task::ArcWake for TaskWake { fn wake_by_ref(a: &Arc<Self>) { vsched::harness_event("__task_wake", |_| true); WOKEN[a.0].store(true, SeqCst); } }
 fn task_wait(k: usize) { vsched::harness_event("__task_wait", |_| WOKEN[k].load(SeqCst)); WOKEN[k].store(false, SeqCst); }
@@ -76,7 +88,9 @@ fn op_done(op: usize, v: usize) { RES[op].store(v, SeqCst); RET[op].store(now(),
     callers = [t['name'] for t in sc['threads'] if not t.get('final')]
     opid = 0
     handles = []
-    tasks = {}
+    tasks = {}; canaries = {}; gives = []
+    nslots = max([o[2] for th_ in sc['threads'] for o in th_['ops'] if o[0] == 'd_give'] + [-1]) + 1
+    for k_ in range(nslots): L.insert(1, 'static SLOT_%d: std::sync::Mutex<Option<desync::Desync<Canary>>> = std::sync::Mutex::new(None);' % k_)
     for th in sc['threads']:
         body = []; futvars = {}
         if th.get('final'):
@@ -142,6 +156,33 @@ fn op_done(op: usize, v: usize) { RES[op].store(v, SeqCst); RET[op].store(now(),
                 var = op[1]; fop, fkind = futvars[var]
                 if op[2] == 'resume': body.append('resumers_%s.take().unwrap().resume(); RESUMED[%d].store(now(), SeqCst);' % (var, fop))
                 else: body.append('drop(resumers_%s.take()); RESUMED[%d].store(now(), SeqCst);' % (var, fop))
+            elif kind == 'd_new':
+                cid = canaries.setdefault(op[1], len(canaries))
+                body.append('let mut dv_%s = Some(desync::Desync::new(Canary { id: %d }));' % (op[1], cid))
+            elif kind in ('d_desync', 'd_sync', 'd_try_sync', 'd_future_desync'):
+                cid = canaries[op[1]]; obj = 10 + cid; b = op[2] if len(op) > 2 else {}
+                base = kind[2:]; tok = 40 + opid
+                code = 'enter(%d, %d); touch(c, %d); yield_(); touch(c, %d); exit_(%d, %d);' % (obj, opid, cid, cid, obj, opid)
+                body.append('op_inv(%d);' % opid)
+                dref = 'dv_%s.as_ref().unwrap()' % op[1]
+                if base == 'desync': body.append('{ %s.desync(move |c| { %s }); op_done(%d, 0); }' % (dref, code, opid))
+                elif base == 'sync': body.append('{ let r = %s.sync(move |c| { %s %d_usize }); op_done(%d, r); }' % (dref, code, tok, opid))
+                elif base == 'try_sync': body.append('{ let r = %s.try_sync(move |c| { %s %d_usize }); op_done(%d, match r { Ok(v) => v, Err(_) => 9999 }); }' % (dref, code, tok, opid))
+                else:
+                    fk = b.get('fut', 'ready'); gate = fk[1] if isinstance(fk, (list, tuple)) else 9999
+                    var = b.get('as', 'f%d' % opid); futvars[var] = (opid, 'future_desync')
+                    body.append('let mut %s = Some(%s.future_desync(move |c| { use futures::FutureExt; enter(%d, %d); touch(c, %d); DGateFut { inner: GateFut { gate: %d, op: %d, obj: %d, tok: %d, done: false }, cid: %d }.boxed() }));' % (var, dref, obj, opid, cid, gate, opid, obj, tok, cid))
+                    body.append('RET[%d].store(now(), SeqCst);' % opid)
+                opid += 1
+            elif kind == 'd_drop':
+                cid = canaries[op[1]]
+                body.append('DROPBEGIN[%d].store(now(), SeqCst); drop(dv_%s.take()); DROPEND[%d].store(now(), SeqCst);' % (cid, op[1], cid))
+            elif kind == 'd_give':
+                gives.append((op[2], op[1]))
+                body.append('vsched::harness_event("__give", |_| true); *SLOT_%d.lock().unwrap() = dv_%s.take(); SLOTFULL[%d].store(true, SeqCst);' % (op[2], op[1], op[2]))
+            elif kind == 'd_take':
+                canaries.setdefault(op[2], [c for s_, c in [(g[0], canaries.get(g[1])) for g in gives] if s_ == op[1]][0] if any(g[0] == op[1] for g in gives) else len(canaries))
+                body.append('vsched::harness_event("__take", |_| SLOTFULL[%d].load(SeqCst)); let mut dv_%s = SLOT_%d.lock().unwrap().take(); SLOTFULL[%d].store(false, SeqCst);' % (op[1], op[2], op[1], op[1]))
             else: raise ValueError('replay: op ' + kind)
         clones = ' '.join('let q%d = Arc::clone(&q%d);' % (q, q) for q in range(nq))
         A('    let h_%s = { %s vsched::spawn_controlled("%s", move || { %s }) };' % (th['name'], clones, th['name'], ' '.join(body)))
@@ -152,6 +193,8 @@ fn op_done(op: usize, v: usize) { RES[op].store(v, SeqCst); RET[op].store(now(),
     A('    println!("VERDICT {}", verdict.clone().unwrap_or("DONE".to_string()));')
     A('    for (n, fin, pan) in threads.iter() { println!("THREAD {} finished={} panicked={}", n, fin, pan); }')
     A('    println!("GHOST overlap={} twice={}", OVERLAP.load(SeqCst), TWICE.load(SeqCst));')
+    A('    println!("MEM uaf={}", UAF.load(SeqCst));')
+    A('    for i in 0..%d { println!("CANARY {} ndrop={} dropbegin={} dropend={} freedat={}", i, NDROP[i].load(SeqCst), DROPBEGIN[i].load(SeqCst) as isize, DROPEND[i].load(SeqCst) as isize, FREEDAT[i].load(SeqCst) as isize); }' % max(1, len(canaries)))
     A('    for i in 0..%d { println!("OP {} nrun={} inv={} ret={} start={} end={} res={} fret={} fres={} nready={} fdropped={} resumed={} cancelled={}", i, NRUN[i].load(SeqCst), INV[i].load(SeqCst) as isize, RET[i].load(SeqCst) as isize, START[i].load(SeqCst) as isize, END[i].load(SeqCst) as isize, RES[i].load(SeqCst) as isize, FRET[i].load(SeqCst) as isize, FRES[i].load(SeqCst) as isize, NREADY[i].load(SeqCst), FDROPPED[i].load(SeqCst) as isize, RESUMED[i].load(SeqCst) as isize, CANCELLED[i].load(SeqCst)); }' % opid)
     for q in range(nq): A('    println!("QUEUE %d {:?}", q%d);' % (q, q))
     A('    std::process::exit(0);')
@@ -193,6 +236,11 @@ def parse_output(out, wall):
             m = re.match(r'OP (\d+) nrun=(\d+) inv=(-?\d+) ret=(-?\d+) start=(-?\d+) end=(-?\d+) res=(-?\d+) fret=(-?\d+) fres=(-?\d+) nready=(\d+) fdropped=(-?\d+) resumed=(-?\d+) cancelled=(\w+)', line)
             r['ops'][int(m.group(1))] = dict(nrun=int(m.group(2)), inv=int(m.group(3)), ret=int(m.group(4)), start=int(m.group(5)), end=int(m.group(6)), res=int(m.group(7)),
                                              fret=int(m.group(8)), fres=int(m.group(9)), nready=int(m.group(10)), fdropped=int(m.group(11)), resumed=int(m.group(12)), cancelled=m.group(13) == 'true')
+        elif line.startswith('MEM '):
+            r['uaf'] = int(re.match(r'MEM uaf=(\d+)', line).group(1))
+        elif line.startswith('CANARY '):
+            m = re.match(r'CANARY (\d+) ndrop=(\d+) dropbegin=(-?\d+) dropend=(-?\d+) freedat=(-?\d+)', line)
+            r.setdefault('canaries', {})[int(m.group(1))] = dict(ndrop=int(m.group(2)), dropbegin=int(m.group(3)), dropend=int(m.group(4)), freedat=int(m.group(5)))
         elif line.startswith('QUEUE '):
             m = re.match(r'QUEUE (\d+) (.*)', line); r['queues'][int(m.group(1))] = m.group(2)
     return r
@@ -276,6 +324,24 @@ def judge(spec, viol, rr):
                 if o['idx'] > so['idx'] and rs['fret'] >= 0 and r['start'] >= 0 and r['start'] >= rs['fret'] and (rs['resumed'] < 0 or r['start'] < rs['resumed']): bad.append('op%d ran while suspended' % k)
                 if o['idx'] > so['idx'] and rs['fret'] >= 0 and r['start'] >= 0 and r['start'] < rs['fret']: bad.append('op%d overtook the suspend' % k)
         return ('reproduced', '; '.join(bad)) if bad else ('not_reproduced', '')
+    if oracle == 'memory':
+        bad = []
+        if rr.get('uaf', 0) > 0: bad.append('value touched after it was dropped (%d times)' % rr['uaf'])
+        for cid, c in rr.get('canaries', {}).items():
+            if c['ndrop'] > 1: bad.append('canary %d dropped %d times' % (cid, c['ndrop']))
+            if c['dropend'] >= 0 and c['ndrop'] != 1: bad.append('canary %d dropped %d times although Desync::drop returned' % (cid, c['ndrop']))
+        return ('reproduced', '; '.join(bad)) if bad else ('not_reproduced', 'note: job-storage use-after-free is not observable natively without a sanitizer')
+    if oracle == 'drop_waits':
+        bad = []
+        for k, o in ops.items():
+            if o['obj'] < 10: continue
+            c = rr.get('canaries', {}).get(o['obj'] - 10)
+            r = rr['ops'][k]
+            if c is None or c['dropbegin'] < 0 or r['ret'] < 0 or r['ret'] > c['dropbegin']: continue
+            if o['kind'] == 'try_sync' and r['res'] == 9999: continue
+            if c['dropend'] >= 0 and (r['end'] < 0 or c['dropend'] < r['end']): bad.append('drop returned before op%d finished' % k)
+            if c['freedat'] >= 0 and (r['end'] < 0 or c['freedat'] < r['end']): bad.append('value freed before op%d finished' % k)
+        return ('reproduced', '; '.join(bad)) if bad else ('not_reproduced', '')
     if oracle == 'pool_max':
         pools = [n for n in rr['threads'] if re.match(r'P\d+$', n)]
         return ('reproduced', 'pool threads %s > max %d' % (pools, sc.get('pool_max', 0))) if len(pools) > sc.get('pool_max', 0) else ('not_reproduced', '')
@@ -285,11 +351,15 @@ def judge(spec, viol, rr):
     return 'unknown_oracle', oracle
 
 def opinfo(sc):
-    ops = {}; k = 0
+    ops = {}; k = 0; dcan = {}
     for th in sc['threads']:
         for op in th['ops']:
-            if op[0] in ('sync', 'desync', 'try_sync', 'future_desync', 'future_sync', 'suspend'):
+            if op[0] in ('sync', 'desync', 'try_sync', 'future_desync', 'future_sync', 'suspend', 'd_desync', 'd_sync', 'd_try_sync', 'd_future_desync'):
                 b = op[2] if len(op) > 2 else {}
+                if op[0].startswith('d_'):
+                    cid = dcan.setdefault(op[1], len(dcan))
+                    ops[k] = {'kind': op[0][2:], 'obj': 10 + cid, 'thread': th['name'], 'probe': False, 'idx': th['ops'].index(op), 'gated': isinstance(b.get('fut'), (list, tuple))}
+                    k += 1; continue
                 ops[k] = {'kind': op[0], 'obj': op[1], 'thread': th['name'], 'probe': b.get('probe'), 'idx': th['ops'].index(op),
                           'gated': any(isinstance(x, (list, tuple)) and x[0] == 'gate' for x in b.get('acts', [])) or isinstance(b.get('fut'), (list, tuple)) or op[0] == 'suspend'}
                 k += 1
